@@ -8,7 +8,7 @@ from vsa.front import AnalysisBroken
 from vsa.alg import Fold, S, F as Fn, is_zero, vec_atoms
 from rules.C07 import NormAtoms
 
-LEVEL = "other"
+LEVEL = "proof"
 X = "votca::xtp::"
 
 
